@@ -105,6 +105,8 @@ def run(pid, tier, seed, replay=None):
     t0 = time.time()
     sel = [p for p in progs_all if set(p["tags"]) & plan["tags"]]
     crates = {mods[(p["name"], v)] for p in sel for v in plan["variants"] if (p["name"], v) in mods}
+    if plan.get("dupfamily"):
+        crates |= {mods[(p["name"], v)] for p in progs_all if "stress" in p["tags"] for v in ("par", "pari") if (p["name"], v) in mods}
     rc, txt, bindir = semlib.build_corpus(shards, crates)
     if rc != 0:
         # the corpus consists of well-formed programs inside the documented language: failing to compile is an observation
@@ -230,6 +232,9 @@ def run(pid, tier, seed, replay=None):
     out.extra["random_large_input_cases"] = nrand
     log(f"[sem] {pid}: {nprogs} programs, {len(cases)} cases")
     raw = finish_cases(out, pid, sel, cases, meta, mods, bindir, work)
+    if plan.get("dupfamily") and not replay:
+        import stress
+        stress.run_stress(out, pid, tier, seed, progs_all, mods, bindir, work)
     conf, drift = 0, []
     for cid, name in plan_cases.items():
         txt = next((e.get("text", "") for e in raw.get(cid, []) if e.get("e") == "summary"), None)
@@ -313,6 +318,7 @@ def finish_cases(out, pid, sel, cases, meta, mods, bindir, work, extra_checks=No
     if extra_checks:
         discrepancies.extend(extra_checks(raw))
     drift = {}
+    drift_by = {}
     seen_v, seen_k = set(), {}
     breakdown = {}
     for cid, kind, detail in discrepancies:
@@ -322,6 +328,8 @@ def finish_cases(out, pid, sel, cases, meta, mods, bindir, work, extra_checks=No
             breakdown[bk] = breakdown.get(bk, 0) + 1
         if kind not in PROPERTY_LEVEL:
             drift[kind] = drift.get(kind, 0) + 1
+            dk = f"{m['case']['prog']}/{m['case']['var']}: {kind}"
+            drift_by[dk] = drift_by.get(dk, 0) + 1
             continue
         rec = {"property": pid, "engine": "sem", "kind": kind, "detail": detail, "case": m["case"], "inputs": m["inputs"],
                "specified_least_model": m["lm"],
@@ -341,5 +349,6 @@ def finish_cases(out, pid, sel, cases, meta, mods, bindir, work, extra_checks=No
         out.extra["property_level_discrepancies"] = dict(sorted(breakdown.items()))
     if drift:
         out.extra["drift"] = drift
+        out.extra["drift_by_program"] = dict(sorted(drift_by.items()))
     out.extra["discrepancies"] = len(discrepancies)
     return raw_all
